@@ -49,14 +49,20 @@ CHECKS = {
              "several workers plus the final read-back state is accepted iff TLC finds one linearization point per call "
              "(internal Lin action) under which the contract yields exactly the recorded replies and final state. Real "
              "threads run under a deterministic scheduler with preemption at every source line of the storage layer "
-             "(in-memory storage; one JournalStorage shared by threads; one JournalStorage per worker on one journal), and "
+             "(in-memory storage; one JournalStorage shared by threads; one JournalStorage per worker on one journal; one "
+             "_CachedStorage over SQLite shared by threads; socket-free gRPC proxies whose client cache, servicer and backend "
+             "all run on the scheduled thread), inside copy.deepcopy for snapshot readers against two-write programs, and "
              "several SQLite connections are interleaved per SQL statement/commit (lock waits become the reply Busy = no "
-             "effect): every ordered pair of a 16-call alphabet with a single preemption at each (quick: sampled) point, plus "
-             "random 2-3 worker schedules. About 2400 histories per quick run, each validated by TLC.",
+             "effect): every ordered pair of a 21-call alphabet (incl. delete_study) with a single preemption at each "
+             "(quick: sampled) point, random 2-3 worker schedules, and real forked OS processes free-running on one journal "
+             "file / SQLite file ordered only by end(a) < start(b). An algorithm-level lock model (InMemLock) is checked with "
+             "its lock-free variant failing. About 5000 histories per quick run, each validated by TLC.",
         note="Trusted: TLC, line-level (not bytecode-level) preemption, the GIL's atomicity of C-level container "
              "operations, the creation-order id normalisation (ids must be handed out in linearization order). The file "
-             "backend's own concurrency is C07; cached/gRPC clients under threads are not scheduled yet. Known finding K1 "
-             "(SQLite compare-and-set) is matched by shape (two overlapping set_trial_state_values on one trial).",
+             "backend's own concurrency is C07. delete_study is not in the SQLite alphabet (id reuse, K2, breaks the id "
+             "numbering). Known findings K1 (SQLite compare-and-set; two overlapping set_trial_state_values on one trial) and "
+             "K13 (torn multi-statement reads; only if the history is linearizable without the overlapping reads) are matched "
+             "by shape.",
         technique="linearizability as a TLA+ trace specification, search over linearization points by TLC; real threads "
                   "under a deterministic line-level / SQL-statement-level scheduler",
         ref="DESIGN.md section 4 C03, section 3.2",
@@ -229,8 +235,10 @@ CHECKS = {
         text="TLC decides every answer of the real kernels: hypervolume = number of dominated lattice cells, rank = "
              "peeling (plain/constrained, n_below contract), HSSP answer within (1-1/e) of the exhaustive best subset. "
              "Inputs: all sequences of <=2-3 points x all weakly dominated reference points of three lattice instances "
-             "(count cross-checked against the spec's own state count) plus seeded random sets in 1-5 dimensions; the "
-             "oracle's own theorems (monotone, submodular, greedy meets the bound) are model-checked first.",
+             "(count cross-checked against the spec's own state count) plus seeded random sets in 1-5 dimensions, plus "
+             "two-objective staircase fronts with near-duplicates on integer coordinates up to 4000 judged by a second, exact "
+             "2-D sweep oracle (checked by TLC to equal the cell count on the lattice); the oracle's own theorems (monotone, "
+             "submodular, greedy meets the bound) are model-checked first.",
         note="Trusted: TLC, the JSON projection of numpy arrays to integers (sentinels for +-inf), exactness of float "
              "arithmetic on small integers. Degenerate 0*inf volumes admit both conventions (D12).",
         technique="TLA+ oracle (Pareto.tla) model-checked with TLC; real-kernel answers validated as traces by TLC",
